@@ -74,6 +74,8 @@ def main(argv=None) -> int:
             return 1 if hits else 0
         print(f"== {prop} tier={args.tier} root={args.root}")
         print(f"analysed: {len(repo.modules)} modules indexed; {len(ctx.analysed_funcs)} functions consulted; {len(ctx.obs)} obligations; counts: " + ", ".join(f"{k}={v}" for k, v in sorted(ctx.counters.items())))
+        if getattr(repo, "inlined_helpers", None):
+            print("NOTE: helpers unknown to the baseline were analysed inlined at their call sites: " + ", ".join(sorted(set(repo.inlined_helpers))))
         if repo.renamed_units:
             print("NOTE: analysed under baseline local names (the function differs from the baseline only by renamed locals): " + ", ".join(sorted(repo.renamed_units)))
         for n in ctx.notes:
